@@ -30,8 +30,9 @@ theorem tail_spec (c : Choice) (v : Variant) (rN r0 : Rec) (d1 : Disk) (h1 : d1.
             = appendRows d1.data (c.accs.map (fun a => a.old.pn)))
     ∧ ((c.accs.isEmpty = true ∨ j = 0 ∨ (j = 1 ∧ (h = false ∨ (c.halfTorn = false ∧ c.halfRows = 0)))) →
         (crashAt (dataEffs c ++ restartEffs v rN) d1 j h).data = d1.data)
-    ∧ (v = .repaired → (crashAt (dataEffs c ++ restartEffs v rN) d1 j h).restart ≠ .empty
-        ∧ (crashAt (dataEffs c ++ restartEffs v rN) d1 j h).restart ≠ .part) := by
+    ∧ (v = .asIs → j = (dataEffs c).length + 1 →
+        ((crashAt (dataEffs c ++ restartEffs v rN) d1 j h).restart = .empty
+          ∨ (crashAt (dataEffs c ++ restartEffs v rN) d1 j h).restart = .part)) := by
   unfold dataEffs restartEffs
   have hnil : c.accs.isEmpty = true → c.accs.map (fun a => a.old.pn) = [] := by
     intro hh; rw [List.isEmpty_iff.1 hh]; rfl
